@@ -51,4 +51,15 @@ for _f, _id in ((ops_filter_mapi, "C15.DTAB-filter-mapi"), (ops_fold, "C15.DTAB-
                 (ops_merge, "C15.DTAB-merge"), (ops_partition, "C15.DTAB-partition"), (pair, "C15.PDOM-pair")):
     _f.rule_id = _id
 
-RULES = [ops_filter_mapi, ops_fold, ops_merge, ops_partition, pair]
+def diff_merge_once(ctx, prog):
+    """The BTreeMap operators get their diff from MergeOnce / SymmetricDiff; their tables (C18) are a
+    necessary condition of C15 and are reported here too."""
+    from .engine import run_relabelled
+    from .c18 import merge_once, symmetric_diff
+    run_relabelled(ctx, prog, merge_once, "C18.DTAB-merge-once", "C15.DTAB-diff-source")
+    run_relabelled(ctx, prog, symmetric_diff, "C18.DTAB-symmetric-diff", "C15.DTAB-diff-source")
+
+
+diff_merge_once.rule_id = "C15.DTAB-diff-source"
+
+RULES = [ops_filter_mapi, ops_fold, ops_merge, ops_partition, pair, diff_merge_once]
